@@ -281,3 +281,206 @@ def arms_are_dual(arm_min, arm_max, odd=lambda s: False, oriented=False):
     if oriented and arm_flavour(arm_min) == "max" and arm_flavour(arm_max) == "min":
         return False
     return True
+
+
+# ------------------------------------------------------------------------------------------- specialisation under a mode
+def specialise(fn_node, mode, mode_flags=(), consts=None):
+    """the body of a function with the mode fixed: mode tests folded to constants, conditionals on them resolved, look-ups in
+    tables keyed by the mode ('min' / 'max', or True / False for a mode test) replaced by the selected row, a tuple unpacked
+    from a tuple display split, `getattr(x, "<constant>")` written `x.<constant>`, and locals that hold a constant, a lambda or
+    a plain name after that folded into their uses.  What remains differs between the two modes exactly where the function
+    depends on the mode - written out, whatever idiom selected it.  `consts`: {name: expression} of module-level constants."""
+    consts = consts or {}
+    fn = copy.deepcopy(fn_node)
+
+    def const_of(e):
+        """python constant an expression folds to under the mode, or a marker that it does not"""
+        mt = mode_test(e, mode_flags)
+        if mt is not None:
+            return mt == mode
+        if isinstance(e, ast.Constant):
+            return e.value
+        if isinstance(e, ast.Call) and isinstance(e.func, ast.Name) and e.func.id == "bool" and len(e.args) == 1 and not e.keywords:
+            v = const_of(e.args[0])
+            return bool(v) if v is not _NO else _NO
+        if isinstance(e, ast.UnaryOp) and isinstance(e.op, ast.Not):
+            v = const_of(e.operand)
+            return (not v) if v is not _NO else _NO
+        if isinstance(e, ast.IfExp):
+            c = const_of(e.test)
+            if c is not _NO:
+                return const_of(e.body if c else e.orelse)
+        return _NO
+
+    class Fold(ast.NodeTransformer):
+        def __init__(self, env):
+            self.env = env
+
+        def visit_IfExp(self, n):
+            n = self.generic_visit(n)
+            c = const_of(n.test)
+            return (n.body if c else n.orelse) if c is not _NO else n
+
+        def visit_Subscript(self, n):
+            n = self.generic_visit(n)
+            tab = n.value
+            if isinstance(tab, ast.Name):
+                tab = self.env.get(tab.id, consts.get(tab.id, tab))
+            k = const_of(n.slice)
+            if isinstance(tab, ast.Dict) and k is not _NO and isinstance(n.ctx, ast.Load):
+                for kk, vv in zip(tab.keys, tab.values):
+                    if isinstance(kk, ast.Constant) and kk.value == k and type(kk.value) is type(k):
+                        return copy.deepcopy(vv)
+            return n
+
+        def visit_Call(self, n):
+            n = self.generic_visit(n)
+            if isinstance(n.func, ast.Name) and n.func.id == "getattr" and len(n.args) == 2 and not n.keywords \
+                    and isinstance(n.args[1], ast.Constant) and isinstance(n.args[1].value, str) and n.args[1].value.isidentifier():
+                return ast.copy_location(ast.Attribute(value=n.args[0], attr=n.args[1].value, ctx=ast.Load()), n)
+            mt = mode_test(n, mode_flags)
+            return n
+
+        def visit_Compare(self, n):
+            n = self.generic_visit(n)
+            mt = mode_test(n, mode_flags)
+            return ast.copy_location(ast.Constant(value=(mt == mode)), n) if mt is not None else n
+
+        def visit_Name(self, n):
+            if isinstance(n.ctx, ast.Load) and n.id in self.env and _inlineable(self.env[n.id]):
+                return copy.deepcopy(self.env[n.id])
+            return n
+
+    local_names = {y.arg for y in ast.walk(fn.args) if isinstance(y, ast.arg)} | \
+                  {y.id for y in ast.walk(fn) if isinstance(y, ast.Name) and isinstance(y.ctx, (ast.Store, ast.Del))}
+
+    def _inlineable(e):
+        """closed values only: constants, lambdas, names of the module (not locals / parameters of the function), and their negation -
+        so that the same locals are folded away whichever mode is fixed"""
+        if isinstance(e, (ast.Constant, ast.Lambda)):
+            return True
+        if isinstance(e, ast.Name):
+            return e.id not in local_names
+        if isinstance(e, ast.Attribute):
+            return _inlineable(e.value)
+        return isinstance(e, ast.UnaryOp) and isinstance(e.op, ast.USub) and _inlineable(e.operand)
+
+    def single_defs(body):
+        """{name: value} for locals assigned exactly once in the whole function (plain assignment)"""
+        cnt, val = {}, {}
+        for y in ast.walk(fn.args):
+            if isinstance(y, ast.arg):
+                cnt[y.arg] = 2
+        for y in ast.walk(ast.Module(body=body, type_ignores=[])):
+            if isinstance(y, ast.Name) and isinstance(y.ctx, (ast.Store, ast.Del)):
+                cnt[y.id] = cnt.get(y.id, 0) + 1
+            elif isinstance(y, ast.arg):
+                cnt[y.arg] = cnt.get(y.arg, 0) + 2
+        for y in ast.walk(ast.Module(body=body, type_ignores=[])):
+            if isinstance(y, ast.Assign) and len(y.targets) == 1 and isinstance(y.targets[0], ast.Name) and cnt.get(y.targets[0].id) == 1:
+                val[y.targets[0].id] = y.value
+        return val
+
+    def stmts(body, env):
+        out = []
+        for st in body:
+            if isinstance(st, (ast.FunctionDef, ast.AsyncFunctionDef, ast.ClassDef)):
+                out.append(st)
+                continue
+            if isinstance(st, ast.If):
+                st.test = Fold(env).visit(st.test)
+                c = const_of(st.test)
+                if c is not _NO:
+                    out += stmts(st.body if c else st.orelse, env)
+                    continue
+                st.body, st.orelse = stmts(st.body, env) or [ast.Pass()], stmts(st.orelse, env)
+                out.append(st)
+                continue
+            for fld in ("body", "orelse", "finalbody"):
+                sub = getattr(st, fld, None)
+                if isinstance(sub, list) and sub and isinstance(sub[0], ast.stmt):
+                    setattr(st, fld, stmts(sub, env) or ([ast.Pass()] if fld == "body" else []))
+            for h in getattr(st, "handlers", []) or []:
+                h.body = stmts(h.body, env) or [ast.Pass()]
+            # fold the expressions of the statement itself (not its nested blocks, done above)
+            for fld, v in list(ast.iter_fields(st)):
+                if fld in ("body", "orelse", "finalbody", "handlers"):
+                    continue
+                if isinstance(v, ast.expr) and not (fld in ("targets", "target") and True):
+                    setattr(st, fld, Fold(env).visit(v))
+                elif isinstance(v, list) and fld not in ("targets",):
+                    setattr(st, fld, [Fold(env).visit(x) if isinstance(x, ast.expr) else x for x in v])
+            # a, b = (x, y)  ->  a = x; b = y
+            if isinstance(st, ast.Assign) and len(st.targets) == 1 and isinstance(st.targets[0], ast.Tuple) and isinstance(st.value, ast.Tuple) \
+                    and len(st.targets[0].elts) == len(st.value.elts) and all(isinstance(e, ast.Name) for e in st.targets[0].elts):
+                for tg, v in zip(st.targets[0].elts, st.value.elts):
+                    out.append(ast.copy_location(ast.Assign(targets=[tg], value=v), st))
+                continue
+            out.append(st)
+        return out
+
+    body = [s for s in fn.body if not (isinstance(s, ast.Expr) and isinstance(s.value, ast.Constant) and isinstance(s.value.value, str))]
+    for _ in range(4):
+        env = single_defs(body)
+        before = "\n".join(U(s) for s in body)
+        body = stmts(body, env)
+        # a local that was folded into all its uses and is now a dead constant / lambda / name definition goes away
+        env = single_defs(body)
+        used = {y.id for s in body for y in ast.walk(s) if isinstance(y, ast.Name) and isinstance(y.ctx, ast.Load)}
+        body = [s for s in body if not (isinstance(s, ast.Assign) and len(s.targets) == 1 and isinstance(s.targets[0], ast.Name)
+                                        and s.targets[0].id in env and s.targets[0].id not in used
+                                        and (_inlineable(s.value) or isinstance(s.value, (ast.Dict, ast.Tuple))))]
+        if "\n".join(U(s) for s in body) == before:
+            break
+    # definitions nothing reads any more (they were folded into their uses)
+    for _ in range(3):
+        env = single_defs(body)
+        used = {y.id for s in body for y in ast.walk(s) if isinstance(y, ast.Name) and isinstance(y.ctx, ast.Load)}
+
+        def prune(bl):
+            out = []
+            for s in bl:
+                if isinstance(s, ast.Assign) and len(s.targets) == 1 and isinstance(s.targets[0], ast.Name) and s.targets[0].id in env \
+                        and s.targets[0].id not in used and (_inlineable(s.value) or isinstance(s.value, (ast.Dict, ast.Tuple))):
+                    continue
+                for fld in ("body", "orelse", "finalbody"):
+                    sub = getattr(s, fld, None)
+                    if isinstance(sub, list) and sub and isinstance(sub[0], ast.stmt) and not isinstance(s, (ast.FunctionDef, ast.AsyncFunctionDef, ast.ClassDef)):
+                        setattr(s, fld, prune(sub) or ([ast.Pass()] if fld == "body" else []))
+                out.append(s)
+            return out
+        body = prune(body)
+    for s in body:
+        ast.fix_missing_locations(s)
+    return body
+
+
+def dual_bodies(a, b, dual_stmt):
+    """two specialised bodies are mirror images: statement by statement equal, or - run of differing statements by run - dual
+    (dual_stmt(list, list) decides), descending into compound statements with the same header"""
+    if len(a) != len(b):
+        return False
+    i = 0
+    while i < len(a):
+        x, y = a[i], b[i]
+        if U(x) == U(y):
+            i += 1
+            continue
+        if type(x) is type(y) and isinstance(x, (ast.If, ast.For, ast.While, ast.With, ast.Try)):
+            hx = U(x.test) if isinstance(x, (ast.If, ast.While)) else (U(x.target) + " in " + U(x.iter) if isinstance(x, ast.For) else "")
+            hy = U(y.test) if isinstance(y, (ast.If, ast.While)) else (U(y.target) + " in " + U(y.iter) if isinstance(y, ast.For) else "")
+            if hx == hy and all(dual_bodies(getattr(x, fld, []) or [], getattr(y, fld, []) or [], dual_stmt) for fld in ("body", "orelse", "finalbody")):
+                i += 1
+                continue
+        j = i
+        while j < len(a) and U(a[j]) != U(b[j]):
+            j += 1
+        if not dual_stmt(a[i:j], b[i:j]):
+            # the run may be several independent pairs
+            if not all(dual_stmt([p_], [q_]) for p_, q_ in zip(a[i:j], b[i:j])):
+                return False
+        i = j
+    return True
+
+
+_NO = object()
